@@ -486,6 +486,62 @@ def run_c17(pid, tier, rep, deadline_s):
     rep.coverage = merge_cov(cov, {'states': totals['cases'], 'transitions': totals['checks'], 'traces_validated_against_impl': totals['cases'], 'samples': samples, 'evaluations': totals['cases'], 'distinct_nontrivial': extra.get('refused', 0), 'bounds': bounds,
                                    'exhaustive': all(b['completed'] for b in bounds), 'rule': 'Grammar part: run-time construction of parsers whose rules mention an undeclared symbol in every position kind must throw (compiled black-box program, g++ and clang++).'})
 
+# ----------------------------------------------------------------------------- C15: histories, schedules, TSan
+C15_RULE = 'Call alphabet of 11 calls on two parser objects (generated lexer + typed term + error rule; custom lexer): accepted, recovering, failing-at-eof, lexical-error and failing-recovery parses, a verbose parse, context_parse with a mutated context, write_diag_str. (1) Histories: every call sequence up to the depth bound runs in its own forked process on parser objects placed in read-only (mprotect) pages; after every call the bytes of the parser objects and of the program\'s .data/.bss must be unchanged and the last call must observe (result, functor log, stream text) exactly what it observes as the first call of a fresh process. (2) Schedules: for 10 pairs of calls two real threads run under a baton-passing scheduler with scheduling points in every user-supplied seam (buffer iterator dereference/increment, functor call, stream <<, custom lexer match); every schedule with at most 2 preemptions is executed (stateless depth-first enumeration by choice-sequence replay, one forked process per execution, divergence on replay is a harness error); each thread must observe its isolated result. (3) Side condition, not the deciding step: the same bodies free-running on 3 threads under ThreadSanitizer.'
+
+def run_c15(pid, tier, rep, deadline_s):
+    q = tier == 'quick'
+    from concurrent.futures import ThreadPoolExecutor
+    flags = ['-pthread']
+    exe = build_prog('c15', 'c15_sched.cpp', 'g++', flags)
+    exet = build_prog('c15tsan', 'c15_sched.cpp', 'g++', flags + ['-g', '-fsanitize=thread'])
+    for e, what in ((exe, 'explorer'), (exet, 'ThreadSanitizer build')):
+        if isinstance(e, tuple):
+            rep.add({'kind': 'does-not-compile', 'known': '', 'engine': 'sched', 'summary': 'progs/c15_sched.cpp (%s) does not compile: %s' % (what, ' / '.join([l for l in e[1].splitlines() if 'error' in l][:3])[:500])})
+    bounds = []; samples = []; states = trans = cases = 0; extra = {}
+    def parse(r):
+        try: return json.loads((r.stdout.strip().splitlines() or [''])[-1])
+        except Exception: return None
+    if not isinstance(exe, tuple):
+        depth = 3 if q else 4
+        r = sh([exe, 'hist', str(depth)], timeout=deadline_s)
+        res = parse(r)
+        if res is None: rep.add({'kind': 'program-crashed', 'known': '', 'engine': 'sched', 'summary': 'history exploration exited %s: %s' % (r.returncode, (r.stdout + r.stderr)[-300:])})
+        else:
+            if res['failures']: rep.add({'kind': 'history-dependent-call', 'known': '', 'engine': 'sched', 'summary': res['first_failure'], 'count': res['failures'], 'mode': 'hist', 'depth': depth})
+            bounds.append({'pass': 'all call sequences up to depth %d over %d calls' % (depth, res['alphabet']), 'completed': True, 'histories': res['histories']})
+            samples.append({'mode': 'hist', 'result': res}); states += res['histories']; trans += res['checks']; cases += res['histories']
+        bound = 2
+        nsh = 10
+        with ThreadPoolExecutor(max_workers=nsh) as ex: outs = list(ex.map(lambda k: sh([exe, 'sched', str(bound), '%d/%d' % (k, nsh)], timeout=deadline_s), range(nsh)))
+        tot = {'schedules': 0, 'scheduling_points': 0, 'failures': 0, 'pairs': 0, 'maxp': 0}; first = ''
+        ok = True
+        for r in outs:
+            res = parse(r)
+            if res is None or 'harness_error' in res:
+                if res and 'harness_error' in res: harness_error('schedule replay diverged: ' + res['harness_error'])
+                rep.add({'kind': 'program-crashed', 'known': '', 'engine': 'sched', 'summary': 'schedule exploration exited %s: %s' % (r.returncode, (r.stdout + r.stderr)[-300:])}); ok = False; continue
+            tot['schedules'] += res['schedules']; tot['scheduling_points'] += res['scheduling_points']; tot['failures'] += res['failures']; tot['pairs'] += res['pairs']; tot['maxp'] = max(tot['maxp'], res['max_points_per_execution'])
+            if res['failures'] and not first: first = res['first_failure']
+        if tot['failures']: rep.add({'kind': 'schedule-dependent-call', 'known': '', 'engine': 'sched', 'summary': first, 'count': tot['failures'], 'mode': 'sched', 'bound': bound})
+        bounds.append({'pass': 'all schedules with <=%d preemptions, 2 threads x 1 call, %d call pairs (up to %d scheduling points per execution)' % (bound, tot['pairs'], tot['maxp']), 'completed': ok, 'schedules': tot['schedules']})
+        samples.append({'mode': 'sched', 'result': tot}); states += tot['schedules']; trans += tot['scheduling_points']; cases += tot['schedules']
+        extra = tot
+    if not isinstance(exet, tuple):
+        env = dict(os.environ); env['TSAN_OPTIONS'] = 'halt_on_error=1 exitcode=66'
+        r = subprocess.run([exet, 'free', '20' if q else '200'], stdout=subprocess.PIPE, stderr=subprocess.PIPE, universal_newlines=True, env=env, timeout=deadline_s)
+        res = parse(r)
+        if r.returncode == 66 or 'ThreadSanitizer' in r.stderr:
+            loc = [l.strip() for l in r.stderr.splitlines() if 'ctpg.hpp' in l][:2]
+            rep.add({'kind': 'data-race', 'known': '', 'engine': 'sched', 'summary': 'ThreadSanitizer reports a data race between concurrent calls on one parser object: %s' % ' / '.join(loc)[:400], 'mode': 'free'})
+        elif res is None: rep.add({'kind': 'program-crashed', 'known': '', 'engine': 'sched', 'summary': 'free-running pass exited %s: %s' % (r.returncode, r.stderr[-300:])})
+        elif res['failures']: rep.add({'kind': 'concurrent-call-differs', 'known': '', 'engine': 'sched', 'summary': res['first_failure'], 'count': res['failures'], 'mode': 'free'})
+        bounds.append({'pass': 'free-running ThreadSanitizer pass (side condition)', 'completed': res is not None})
+    rep.coverage = {'states': max(states, 1), 'transitions': max(trans, 1), 'traces_validated_against_impl': cases, 'samples': samples or [{'note': 'nothing ran'}], 'evaluations': cases, 'distinct_nontrivial': cases,
+                    'rule': C15_RULE, 'exhaustive': all(b['completed'] for b in bounds), 'bounds': bounds, 'counters': extra,
+                    'what_states_and_transitions_are': 'states = histories + schedules executed; transitions = calls checked in histories + scheduling points passed in schedules'}
+    rep.assumptions = ['scheduling points are the seams through which the library calls back into user code; the library contains no synchronisation operations of its own', 'sequential consistency (no atomics in the library)', '2 threads in the scheduled exploration, 3 in the TSan pass']
+
 # ----------------------------------------------------------------------------- dispatch
 QUICK_DEADLINE, THOROUGH_DEADLINE = 240, 1500
 
@@ -516,6 +572,7 @@ def main(argv):
         elif pid in RX_PROPS: run_rx(pid, tier, rep, deadline)
         elif pid in PROG_SPECS: run_prog_check(pid, tier, rep, deadline)
         elif pid == 'C07': run_c07(pid, tier, rep, deadline)
+        elif pid == 'C15': run_c15(pid, tier, rep, deadline)
         elif pid == 'C06': run_c06(pid, tier, rep, deadline)
         elif pid == 'C12': run_c12(pid, tier, rep, deadline)
         else: print('no check for ' + pid); return 2
